@@ -10,6 +10,7 @@ pub fn run(kind: &str, i: &Input) -> String {
         "asm_bytes" => asm_bytes(i),
         "vm_prog" => vm_prog(i),
         "crypto_roundtrip" => crypto_roundtrip(i),
+        "vm_pex" => vm_pex(i),
         "vm_compute" => vm_compute(i),
         "types_convert" => types_convert(i),
         "hash_addrs" => hash_addrs(i),
@@ -711,6 +712,15 @@ fn crypto_roundtrip(i: &Input) -> String {
     let rec = essential_sign::contract::recover(&signed);
     out += &format!("contract_recover_is_signer={}\n", matches!(rec, Ok(p) if p == pk));
     out += &format!("contract_verify={}\n", essential_sign::contract::verify(&signed).is_ok());
+    // two predicates, presented to the verifier in the other order
+    let pa = Predicate { nodes: vec![Node { edge_start: u16::MAX, program_address: ContentAddress([seed; 32]) }], edges: vec![] };
+    let pb = Predicate { nodes: vec![Node { edge_start: u16::MAX, program_address: ContentAddress([seed ^ 0x55; 32]) }], edges: vec![] };
+    for (x, y) in [(pa.clone(), pb.clone()), (pb, pa)] {
+        let mut s2 = essential_sign::contract::sign(Contract { predicates: vec![x, y], salt }, &sk);
+        s2.contract.predicates.reverse();
+        let r2 = essential_sign::contract::recover(&s2);
+        out += &format!("reordered_predicates_recover_signer={}\n", matches!(r2, Ok(p) if p == pk));
+    }
     let mut bad = signed.clone(); bad.signature.1 = 9;
     out += &format!("bad_recovery_id_is_error={}\n", essential_sign::contract::recover(&bad).is_err());
     // (2) VM RecoverSecp256k1 vs sign crate
@@ -752,5 +762,49 @@ fn crypto_roundtrip(i: &Input) -> String {
     let rs = essential_sign::secp256k1::ecdsa::RecoverableSignature::from_compact(&sig.0, essential_sign::secp256k1::ecdsa::RecoveryId::try_from(sig.1 as i32).unwrap()).unwrap();
     let sw = essential_sign::encode::signature(&rs);
     out += &format!("signature_words_layout={}\n", sw[..8] == word_8_from_u8_64(sig.0) && sw[8] == sig.1 as i64);
+    out + "result=ok\n"
+}
+
+/// PredicateExists against an independently built pre-image: for every solution k the words of
+/// SHA-256(for each slot: len word, words ‖ contract ‖ predicate) must be found, a digest with one flipped bit must not.
+/// `solK` = slots separated by '|', a slot is `e` (empty) or words; `none` = no slots
+fn vm_pex(i: &Input) -> String {
+    use essential_types::convert::*;
+    let mut sols = vec![];
+    let mut k = 0;
+    while i.contains_key(&format!("sol{k}")) {
+        let mut c = [0u8; 32]; let mut p = [0u8; 32];
+        for (j, b) in bytes(get(i, &format!("contract{k}"))).into_iter().enumerate().take(32) { c[j] = b; }
+        for (j, b) in bytes(get(i, &format!("predicate{k}"))).into_iter().enumerate().take(32) { p[j] = b; }
+        let data: Vec<Vec<i64>> = if get(i, &format!("sol{k}")) == "none" { vec![] } else {
+            get(i, &format!("sol{k}")).split('|').map(|x| if x.trim() == "e" { vec![] } else { words(x) }).collect() };
+        sols.push(Solution { predicate_to_solve: PredicateAddress { contract: ContentAddress(c), predicate: ContentAddress(p) }, predicate_data: data, state_mutations: vec![] });
+        k += 1;
+    }
+    let digests: Vec<[u8; 32]> = sols.iter().map(|s| {
+        let mut pre: Vec<u8> = vec![];
+        for slot in &s.predicate_data {
+            pre.extend((slot.len() as i64).to_be_bytes());
+            for w in slot { pre.extend(w.to_be_bytes()); }
+        }
+        pre.extend(s.predicate_to_solve.contract.0);
+        pre.extend(s.predicate_to_solve.predicate.0);
+        essential_hash::hash_bytes(&pre)
+    }).collect();
+    let run = |d: [u8; 32]| -> String {
+        let access = Access::new(Arc::new(sols.clone()), 0);
+        let mut vm = Vm::default();
+        vm.stack = Stack::try_from(word_4_from_u8_32(d).to_vec()).unwrap();
+        match vm.exec_ops(&[asm::Access::PredicateExists.into()], access, &NoState, &|_: &Op| 1, GasLimit::UNLIMITED) {
+            Ok(_) => fmt_words(&vm.stack),
+            Err(e) => format!("err {:?}", e.1).replace('\n', " "),
+        }
+    };
+    let mut out = String::new();
+    for (k, d) in digests.iter().enumerate() {
+        out += &format!("exists_{k}={}\n", run(*d));
+        let mut f = *d; f[31] ^= 1;
+        if !digests.contains(&f) { out += &format!("flipped_{k}={}\n", run(f)); }
+    }
     out + "result=ok\n"
 }
